@@ -126,7 +126,7 @@ Proof.
       replace (i + S d) with (i + d + 1) by lia. lra. }
   assert (N01 : isnb g (a 0) (a 1)).
   { apply isnb_sym; [exact HG|]. apply (P 0). lia. }
-  assert (V01 : (simq g (a 0) (a 1) == v 0%nat)%Q) by (unfold v; apply simq_sym; exact HG).
+  assert (V01 : (simq g (a 0%nat) (a 1%nat) == v 0%nat)%Q) by (unfold v; apply simq_sym; exact HG).
   assert (Top : (v 0%nat <= vt)%Q).
   { rewrite <- V01. unfold vt. destruct PQ as (_ & Mx & _). now apply Mx. }
   assert (Nm0 : isnb g (a (m - 1)%nat) (a 0)).
